@@ -150,6 +150,14 @@ def _is_frozen_poly(x):
     return isinstance(x, tuple) and (not x or (isinstance(x[0], tuple) and len(x[0]) == 2 and isinstance(x[0][0], tuple)))
 
 
+def psub_float(a, b):
+    """a - b for floating-point element values: `x - x` is not 0 for an infinite or NaN x (it is NaN), so the difference of two identical
+    input-dependent polynomials is kept as an atom `nanzero(x)` (0 for finite x, NaN otherwise) instead of cancelling."""
+    if a and pkey(a) == pkey(b) and any(at[0] == "in" for at in patoms(a)):
+        return patom(("call", "nanzero", (_freeze(a),)))
+    return padd(a, b, -1)
+
+
 # ---------------- symbolic evaluation ----------------
 class Eval:
     def __init__(self, outer_env=None, simd_names=("simd",)):
@@ -211,7 +219,7 @@ class Eval:
             if op == "+":
                 return padd(a, b)
             if op == "-":
-                return padd(a, b, -1)
+                return psub_float(a, b)
             if op == "*":
                 return pmul(a, b)
             if op == "/":
@@ -229,7 +237,7 @@ class Eval:
                 if op == "+":
                     return padd(a, b)
                 if op == "-":
-                    return padd(a, b, -1)
+                    return psub_float(a, b)
                 if op == "*":
                     return pmul(a, b)
                 return patom(("call", op, (_freeze(a), _freeze(b))))
